@@ -228,6 +228,8 @@ def sites(cls: str, root: El, version: str) -> list[tuple[str, Any]]:
             for a in IDENTIFYING.get(el.tag, ()):
                 if any(k == a for k, _v in el.attrs):
                     out.append((f'{el.tag}@{a}', (el, a)))
+            if el.tag in ('Extends', 'Requires'):      # both identifying attributes at once
+                out.append((f'{el.tag}@id+version', (el, ('id', 'version'))))
     elif cls == 'elem-renamed':
         for el, p, _i in walk(root):
             out.append((el.tag, (el, p)))
@@ -386,8 +388,9 @@ def build(resource: dict, style, mutation: dict, literal_ws: bool = False) -> Bu
     b.kind = k
     if cls == 'attr-removed':
         el, a = handle
-        el.attrs = [(n, v) for n, v in el.attrs if n != a]
-        b.what = f'{a} removed from <{el.tag}>'
+        gone = a if isinstance(a, tuple) else (a,)
+        el.attrs = [(n, v) for n, v in el.attrs if n not in gone]
+        b.what = f'{"+".join(gone)} removed from <{el.tag}>'
     elif cls == 'elem-renamed':
         el, parent = handle
         name = _unknown_name(el.tag, arg)
